@@ -112,6 +112,9 @@ pub fn build_pass_0(
 /// How deep macro calls may nest
 const MAX_MACRO_DEPTH: usize = 64;
 
+/// How long a line of a macro body may be once the arguments are substituted
+const MAX_MACRO_LINE: usize = 65536;
+
 fn pass0_internal(
     segment: Segment,
     context: &Pass0Context,
@@ -200,6 +203,14 @@ fn macro_expand(
         } else {
             macro_body.clone()
         };
+        if macro_body.iter().any(|x| x.1.len() > MAX_MACRO_LINE) {
+            bail!(
+                "macro {} expands to a line of more than {} bytes (recursive macro?) on {}",
+                macro_name,
+                MAX_MACRO_LINE,
+                line
+            );
+        }
         let mut iter = macro_body.iter().map(|x| (x.0.line_num, x.1.as_str()));
         let parse_context = ParseContext {
             current_path: context.current_path.clone(),
